@@ -1,34 +1,36 @@
-"""facts_C19.py -- structural facts of grpclib.health copied into coq/Gen/FactsC19.v (property C19).
+"""facts_C19.py -- facts about grpclib.health for coq/Gen/FactsC19.v (property C19), obtained BY VALUE.
 
-`ast` only; grpclib is never imported.  Fail-closed: a statement shape that is not recognised raises
-Unsupported, the generated file disappears and Props/C19.v stops compiling (tie broken).
+Nothing is read off the syntax any more.  The health modules of the repository under test are imported and
+PROBED through their public surface on the deterministic virtual-time loop of the harness:
 
-What is extracted
-  * the decision chain of service._status         (set literal compared -> ServingStatus returned)
-  * the ServingStatus enum numbers                 (health.proto, the source of health_pb2)
-  * what Health.Check / Health.Watch answer for an unregistered service and for an empty check list
-  * DEFAULT_CHECK_TTL / DEFAULT_CHECK_TIMEOUT, the comparison operator of the TTL cache test
-  * whether `await self._func()` is lexically inside `with <w>.start(deadline), <w>` where <w> was
-    bound to a fresh DeadlineWrapper() in the same function (the repair of D12)
-  * the value stored by `except Exception`, the non-bool TypeError guard, the single-flight latch
-    statements (clear before the run, set in `finally`), the notify guard `!=` in __check__ and in
-    ServiceStatus.set
-  * the condition and statement order of _reset_waits, and return_when of the asyncio.wait in Watch
-  * ServiceCheck.__subscribe__ / __unsubscribe__ / _poll: a poll task is started iff _poll_task is None; whether
-    _poll_task is forgotten before or after the suspension in `await task`
-Status codes used in the generated file: True = 1, False = 0, None = 2."""
-import ast
+  Health(...).Check / .Watch        driven with a fake stream (recv_message / send_message / send_trailing_metadata)
+  CheckBase protocol                 __status__ / __check__ / __subscribe__ / __unsubscribe__ of probe checks
+  ServiceStatus().set, ServiceCheck(func, check_ttl=, check_timeout=)
+
+Every fact is a function over a small finite domain that is evaluated completely (the aggregate for every
+multiset of up to 3 statuses; what the Watch loop does to an event whose wait task is absent / pending /
+woken / done; the TTL test at ttl-1, ttl, ttl+1; how a run ends for return / raise / non-bool / timeout /
+cancel; ...), or a yes/no observation of an interleaving the proofs rely on (everything a Watch wake-up does
+happens in ONE loop iteration; a second caller during a run does not start the function; the last watcher
+leaving and the next one joining 0..2 loop iterations apart still leaves a live poller).  So any
+re-spelling with the same behaviour (helpers extracted or inlined, early returns, tables instead of if-chains,
+renamed private names) yields the same file, and a change of behaviour yields a different one (the Coq model
+is instantiated with these facts and the proofs then fail) or an observation outside what the model
+understands, which raises Unsupported (fail-closed: the file is not generated).
+
+Facts that no theorem uses (DEFAULT_CHECK_TTL / DEFAULT_CHECK_TIMEOUT, statement shapes) are gone.
+Status codes: True = 1, False = 0, None = 2."""
+import asyncio
+import itertools
 import os
-import re
+import sys
 
-from extract_facts import Unsupported, parse, module_assigns, ceval, zs, func_node, class_node, \
-    enum_members
+from extract_facts import Unsupported, load, zs
 
-ST = {True: 1, False: 0, None: 2}
-
-
-def u(node):
-    return ast.unparse(node)
+VERIF = os.path.dirname(os.path.dirname(os.path.abspath(__file__)))
+ST = {1: True, 0: False, 2: None}
+CODE = {True: 1, False: 0, None: 2}
+TICK = 0.125
 
 
 def need(cond, what):
@@ -36,347 +38,589 @@ def need(cond, what):
         raise Unsupported('C19 facts: ' + what)
 
 
-def proto_enum(repo):
-    p = os.path.join(repo, 'grpclib/health/v1/health.proto')
-    text = re.sub(r'//[^\n]*', '', open(p).read())
-    m = re.search(r'enum\s+ServingStatus\s*\{([^}]*)\}', text)
-    need(m, 'enum ServingStatus in health.proto')
-    out = []
-    for item in m.group(1).split(';'):
-        item = item.strip()
-        if not item:
-            continue
-        mm = re.fullmatch(r'([A-Z_]+)\s*=\s*(\d+)', item)
-        need(mm, 'enum item %r' % item)
-        out.append((mm.group(1), int(mm.group(2))))
-    need(out, 'ServingStatus members')
-    return out
-
-
-def resp_name(node):
-    """HealthCheckResponse.NAME -> NAME"""
-    need(isinstance(node, ast.Attribute) and isinstance(node.value, ast.Name)
-         and node.value.id == 'HealthCheckResponse', 'HealthCheckResponse.<NAME> expected: ' + u(node))
-    return node.attr
-
-
-def status_chain(fn, enum):
-    body = fn.body
-    need(len(body) == 2, '_status body has two statements')
-    need(u(body[0]) == 'statuses = {check.__status__() for check in checks}', '_status set comprehension')
-    chain = []
-    node = body[1]
-    while True:
-        need(isinstance(node, ast.If), '_status if-chain')
-        t = node.test
-        need(isinstance(t, ast.Compare) and len(t.ops) == 1 and isinstance(t.ops[0], ast.Eq)
-             and u(t.left) == 'statuses' and isinstance(t.comparators[0], ast.Set), '_status test ' + u(t))
-        elts = []
-        for e in t.comparators[0].elts:
-            need(isinstance(e, ast.Constant) and (e.value is None or isinstance(e.value, bool)),
-                 '_status set literal element ' + u(e))
-            elts.append(ST[e.value])
-        need(len(node.body) == 1 and isinstance(node.body[0], ast.Return), '_status return')
-        chain.append((elts, enum[resp_name(node.body[0].value)]))
-        need(len(node.orelse) == 1, '_status else branch')
-        nxt = node.orelse[0]
-        if isinstance(nxt, ast.Return):
-            return chain, enum[resp_name(nxt.value)]
-        node = nxt
-
-
-def sent_status(stmt):
-    """await stream.send_message(HealthCheckResponse(status=HealthCheckResponse.NAME)) -> NAME"""
-    need(isinstance(stmt, ast.Expr) and isinstance(stmt.value, ast.Await), 'await statement: ' + u(stmt))
-    call = stmt.value.value
-    need(isinstance(call, ast.Call) and u(call.func) == 'stream.send_message' and len(call.args) == 1,
-         'stream.send_message(...): ' + u(stmt))
-    msg = call.args[0]
-    need(isinstance(msg, ast.Call) and u(msg.func) == 'HealthCheckResponse' and not msg.args
-         and len(msg.keywords) == 1 and msg.keywords[0].arg == 'status', 'HealthCheckResponse(status=..)')
-    return msg.keywords[0].value
-
-
-def handler_branches(fn):
-    """the if checks is None / elif len(checks) == 0 / else statement of Check and Watch"""
-    body = [s for s in fn.body if not (isinstance(s, ast.Expr) and isinstance(s.value, ast.Constant))]
-    need(u(body[0]) == 'request = await stream.recv_message()', fn.name + ': recv_message first')
-    ifs = [s for s in body if isinstance(s, ast.If)]
-    need(len(ifs) == 1, fn.name + ': one if statement')
-    need(any(u(s) == 'checks = self._checks.get(request.service)' for s in fn.body), fn.name + ': lookup')
-    top = ifs[0]
-    need(u(top.test) == 'checks is None', fn.name + ': unregistered test')
-    need(len(top.orelse) == 1 and isinstance(top.orelse[0], ast.If)
-         and u(top.orelse[0].test) == 'len(checks) == 0', fn.name + ': empty test')
-    return top.body, top.orelse[0].body, top.orelse[0].orelse
-
-
-def sleeps_forever(stmts, who):
-    need(len(stmts) == 2 and isinstance(stmts[1], ast.While) and u(stmts[1].test) == 'True'
-         and len(stmts[1].body) == 1 and u(stmts[1].body[0]).startswith('await asyncio.sleep('),
-         who + ': message then sleep forever')
-
-
-def check_facts(tree, enum, status_enum):
-    fn = func_node(tree, 'Check', 'Health')
-    unreg, empty, other = handler_branches(fn)
-    need(len(unreg) == 1, 'Check: unregistered branch')
-    call = unreg[0].value.value if isinstance(unreg[0], ast.Expr) and isinstance(unreg[0].value, ast.Await) else None
-    need(isinstance(call, ast.Call) and u(call.func) == 'stream.send_trailing_metadata' and not call.args
-         and len(call.keywords) == 1 and call.keywords[0].arg == 'status', 'Check: send_trailing_metadata(status=)')
-    st = call.keywords[0].value
-    need(isinstance(st, ast.Attribute) and u(st.value) == 'Status', 'Check: Status.<NAME>')
-    unreg_code = dict(status_enum)[st.attr]
-    need(len(empty) == 1, 'Check: empty branch')
-    empty_resp = enum[resp_name(sent_status(empty[0]))]
-    need(len(other) == 2 and u(other[0]) == 'for check in checks:\n    await check.__check__()',
-         'Check: runs every check')
-    need(u(sent_status(other[1])) == '_status(checks)', 'Check: answers _status(checks)')
-    return unreg_code, empty_resp
-
-
-WATCH_BODY = '''events = []
-for check in checks:
-    events.append(await check.__subscribe__())
-waits = _reset_waits(events, {})
-try:
-    await stream.send_message(HealthCheckResponse(status=_status(checks)))
-    while True:
-        await asyncio.wait(waits.values(), return_when=asyncio.%s)
-        waits = _reset_waits(events, waits)
-        await stream.send_message(HealthCheckResponse(status=_status(checks)))
-finally:
-    for check, event in zip(checks, events):
-        await check.__unsubscribe__(event)
-    for wait in waits.values():
-        if not wait.done():
-            wait.cancel()'''
-
-
-def watch_facts(tree, enum):
-    fn = func_node(tree, 'Watch', 'Health')
-    unreg, empty, other = handler_branches(fn)
-    sleeps_forever(unreg, 'Watch unregistered')
-    sleeps_forever(empty, 'Watch empty')
-    unreg_resp = enum[resp_name(sent_status(unreg[0]))]
-    empty_resp = enum[resp_name(sent_status(empty[0]))]
-    text = '\n'.join(u(s) for s in other)
-    first = None
-    for mode in ('FIRST_COMPLETED', 'ALL_COMPLETED', 'FIRST_EXCEPTION'):
-        if text == WATCH_BODY % mode:
-            first = (mode == 'FIRST_COMPLETED')
-    need(first is not None, 'Watch: subscription loop has an unrecognised shape')
-    return unreg_resp, empty_resp, first
-
-
-def reset_facts(tree):
-    fn = func_node(tree, '_reset_waits')
-    need(u(fn.body[0]) == 'new_waits = {}' and u(fn.body[-1]) == 'return new_waits' and len(fn.body) == 3
-         and isinstance(fn.body[1], ast.For) and u(fn.body[1].target) == 'event'
-         and u(fn.body[1].iter) == 'events', '_reset_waits skeleton')
-    loop = fn.body[1].body
-    need(len(loop) == 3 and u(loop[0]) == 'wait = waits.get(event)' and isinstance(loop[1], ast.If)
-         and u(loop[2]) == 'new_waits[event] = wait' and not loop[1].orelse, '_reset_waits loop body')
-    cond = u(loop[1].test)
-    renew = [u(s) for s in loop[1].body]
-    absent_or_done = cond == 'wait is None or wait.done()'
-    need(absent_or_done or cond in ('wait is None', 'wait is None or not wait.done()', 'wait.done()', 'True'),
-         '_reset_waits condition ' + cond)
-    clears_then_waits = renew == ['event.clear()', 'wait = asyncio.ensure_future(event.wait())']
-    need(clears_then_waits or renew == ['wait = asyncio.ensure_future(event.wait())'] or
-         renew == ['wait = asyncio.ensure_future(event.wait())', 'event.clear()'], '_reset_waits renewal ' + repr(renew))
-    return absent_or_done, clears_then_waits
-
-
-CMP = {ast.Lt: 0, ast.LtE: 1, ast.Gt: 2, ast.GtE: 3}
-
-
-def service_check_facts(tree):
-    fn = func_node(tree, '__check__', 'ServiceCheck')
-    body = fn.body
-    need(len(body) >= 6, '__check__ body')
-    # 1. TTL cache
-    ttl = body[0]
-    need(isinstance(ttl, ast.If) and isinstance(ttl.test, ast.BoolOp) and isinstance(ttl.test.op, ast.And)
-         and len(ttl.test.values) == 2 and u(ttl.test.values[0]) == 'self._last_check is not None'
-         and u(ttl.body[0]) == 'return self._value' and not ttl.orelse, '__check__: TTL cache test')
-    c = ttl.test.values[1]
-    need(isinstance(c, ast.Compare) and len(c.ops) == 1 and type(c.ops[0]) in CMP
-         and u(c.left) == 'time.monotonic() - self._last_check' and u(c.comparators[0]) == 'self._check_ttl',
-         '__check__: TTL comparison ' + u(c))
-    ttl_cmp = CMP[type(c.ops[0])]
-    # 2. single flight latch
-    latch = body[1]
-    need(isinstance(latch, ast.If) and u(latch.test) == 'not self._check_lock.is_set()'
-         and [u(s) for s in latch.body] == ['await self._check_lock.wait()', 'return self._value']
-         and not latch.orelse, '__check__: latch wait')
-    need(u(body[2]) == 'prev_value = self._value', '__check__: prev_value')
-    latch_cleared = u(body[3]) == 'self._check_lock.clear()'
-    tr = body[4] if latch_cleared else body[3]
-    need(isinstance(tr, ast.Try), '__check__: try statement')
-    latch_set_finally = [u(s) for s in tr.finalbody] == ['self._check_lock.set()']
-    # 3. the guarded call
-    fresh = None
-    guarded = False
-    typeguard = False
-    stores = False
-    for s in tr.body:
-        if isinstance(s, ast.Assign) and u(s.value) == 'DeadlineWrapper()':
-            fresh = [u(t) for t in s.targets]
-    for s in tr.body:
-        if isinstance(s, ast.With):
-            inner = [u(x) for x in s.body]
-            if 'value = await self._func()' in inner:
-                ctx = [u(i.context_expr) for i in s.items]
-                if fresh and 'wrapper' in fresh and ctx == ['wrapper.start(deadline)', 'wrapper']:
-                    guarded = True
-        if u(s) == "if value is not None and (not isinstance(value, bool)):\n    " \
-                   "raise TypeError('Invalid status type: {!r}'.format(value))":
-            typeguard = True
-        if u(s) == 'self._value = value':
-            stores = True
-    called = any('await self._func()' in u(s) for s in tr.body)
-    need(called and stores, '__check__: the function is awaited and its result stored')
-    need(any(u(s) == 'deadline = Deadline.from_timeout(self._check_timeout)' for s in tr.body) or not guarded,
-         '__check__: deadline from check_timeout')
-    # 4. handlers
-    need(len(tr.handlers) == 2 and u(tr.handlers[0].type) == 'asyncio.CancelledError'
-         and [u(s) for s in tr.handlers[0].body] == ['raise'] and u(tr.handlers[1].type) == 'Exception',
-         '__check__: except clauses')
-    fail = [s for s in tr.handlers[1].body if isinstance(s, ast.Assign) and u(s.targets[0]) == 'self._value']
-    need(len(fail) == 1 and isinstance(fail[0].value, ast.Constant) and fail[0].value.value in ST,
-         '__check__: value stored on failure')
-    fail_value = ST[fail[0].value.value]
-    # 5. tail: _last_check, notify
-    tail = body[body.index(tr) + 1:]
-    need(len(tail) == 3 and u(tail[0]) == 'self._last_check = time.monotonic()'
-         and isinstance(tail[1], ast.If) and u(tail[2]) == 'return self._value', '__check__: tail')
-    notify = notify_guard(tail[1])
-    return dict(ttl_cmp=ttl_cmp, latch_cleared=latch_cleared, latch_set_finally=latch_set_finally,
-                guarded=guarded, typeguard=typeguard, fail_value=fail_value, notify=notify)
-
-
-def notify_guard(ifstmt):
-    """if self._value != prev_value: ... for event in self._events: event.set()"""
-    t = ifstmt.test
-    need(isinstance(t, ast.Compare) and len(t.ops) == 1 and u(t.left) == 'self._value'
-         and u(t.comparators[0]) == 'prev_value', 'notify guard ' + u(t))
-    sets = [s for s in ifstmt.body if isinstance(s, ast.For)]
-    ok = len(sets) == 1 and u(sets[0]) == 'for event in self._events:\n    event.set()' and not ifstmt.orelse
-    return isinstance(t.ops[0], ast.NotEq) and ok
-
-
-def service_status_facts(tree):
-    fn = func_node(tree, 'set', 'ServiceStatus')
-    body = [s for s in fn.body if not (isinstance(s, ast.Expr) and isinstance(s.value, ast.Constant))]
-    need(len(body) == 3 and u(body[0]) == 'prev_value = self._value' and u(body[1]) == 'self._value = value'
-         and isinstance(body[2], ast.If), 'ServiceStatus.set body')
-    for name in ('__status__', '__check__'):
-        f = func_node(tree, name, 'ServiceStatus')
-        need([u(s) for s in f.body] == ['return self._value'], 'ServiceStatus.%s returns the value' % name)
-    return notify_guard(body[2])
-
-
-def poll_facts(tree):
-    """ServiceCheck.__subscribe__ / __unsubscribe__: who starts and who forgets the poll task"""
-    sub = func_node(tree, '__subscribe__', 'ServiceCheck')
-    body = [u(s) for s in sub.body]
-    need(len(sub.body) == 4 and isinstance(sub.body[0], ast.If) and body[1:] ==
-         ['event = asyncio.Event()', 'self._events.add(event)', 'return event'], '__subscribe__ body')
-    first = sub.body[0]
-    starts_when_none = u(first.test) == 'self._poll_task is None' and not first.orelse and \
-        [u(x) for x in first.body] == ['loop = asyncio.get_event_loop()',
-                                       'self._poll_task = loop.create_task(self._poll())']
-    need(starts_when_none or u(first.test) in ('self._poll_task is not None', 'not self._events', 'True'),
-         '__subscribe__ poll start ' + u(first.test))
-    un = func_node(tree, '__unsubscribe__', 'ServiceCheck')
-    need(len(un.body) == 2 and u(un.body[0]) == 'self._events.discard(event)' and isinstance(un.body[1], ast.If)
-         and u(un.body[1].test) == 'not self._events' and not un.body[1].orelse, '__unsubscribe__ skeleton')
-    inner = un.body[1].body
-    texts = [u(x) for x in inner]
-    wait = 'try:\n    await task\nexcept asyncio.CancelledError:\n    pass'
-    need(sorted(texts) == sorted(['assert self._poll_task is not None', 'task = self._poll_task',
-                                  'self._poll_task = None', 'task.cancel()', wait]),
-         '__unsubscribe__ statements ' + repr(texts))
-    need(texts.index('task = self._poll_task') < texts.index('task.cancel()') < texts.index(wait)
-         and texts.index('task = self._poll_task') < texts.index('self._poll_task = None'),
-         '__unsubscribe__ statement order')
-    cleared_before_await = texts.index('self._poll_task = None') < texts.index(wait)
-    poll = func_node(tree, '_poll', 'ServiceCheck')
-    need(len(poll.body) == 1 and isinstance(poll.body[0], ast.While) and u(poll.body[0].test) == 'True'
-         and u(poll.body[0].body[0]) == 'status = await self.__check__()'
-         and all('await asyncio.sleep(self._check_ttl)' in u(x) for x in poll.body[0].body[1:])
-         and len(poll.body[0].body) == 2, '_poll loop')
-    return starts_when_none, cleared_before_await
-
-
 def b(x):
     return 'true' if x else 'false'
 
 
+# ------------------------------------------------------------------------------------------------
+# probe kit (public surface only)
+
+class Rig:
+    def __init__(self, repo):
+        if VERIF not in sys.path:
+            sys.path.insert(0, VERIF)
+        self.service = load(repo, 'grpclib.health.service')
+        self.check = load(repo, 'grpclib.health.check')
+        self.pb2 = load(repo, 'grpclib.health.v1.health_pb2')
+        from harness import vloop
+        self.vloop = vloop
+
+    def health(self, cfg):
+        """cfg: [(name or '' for OVERALL, [checks])]"""
+        d = {}
+        for name, checks in cfg:
+            d[self.service.OVERALL if name == '' else _Svc(name)] = list(checks)
+        return self.service.Health(d)
+
+
+class _Svc:
+    def __init__(self, name):
+        self.name = name
+
+    def __mapping__(self):
+        return {'/%s/M' % self.name: None}
+
+
+class Stepper:
+    """counts loop iterations; runs exactly one at a time"""
+
+    def __init__(self, loop):
+        self.loop = loop
+        self.n = 0
+
+    def step(self, k=1):
+        for _ in range(k):
+            self.n += 1
+            self.loop.call_soon(self.loop.stop)
+            self.loop.run_forever()
+
+    def idle(self):
+        return not self.loop._ready
+
+    def settle(self, limit=200):
+        for _ in range(limit):
+            if self.idle():
+                return
+            self.step()
+        raise Unsupported('C19 facts: the loop does not become idle (busy loop)')
+
+    def until(self, t, limit=20000):
+        """virtual time passes until t (timers fire at their instants)"""
+        loop = self.loop
+        for _ in range(limit):
+            if not loop._ready:
+                whens = [h._when for h in loop._scheduled if not h._cancelled]
+                if not whens or min(whens) > t:
+                    break
+                if min(whens) > loop._vtime:
+                    loop._vtime = min(whens)
+            self.step()
+        else:
+            raise Unsupported('C19 facts: busy loop')
+        if loop._vtime < t:
+            loop._vtime = t
+
+
+class Stream:
+    """what a handler sees of grpclib.server.Stream"""
+
+    def __init__(self, pb2, service, stepper=None, log=None):
+        self.req = pb2.HealthCheckRequest(service=service)
+        self.sent = []
+        self.trailing = None
+        self.stepper = stepper
+        self.log = log
+
+    async def recv_message(self):
+        return self.req
+
+    async def send_message(self, message, **kw):
+        self.sent.append(int(message.status))
+        if self.log is not None:
+            self.log.append(('send', None, self.stepper.n))
+
+    async def send_trailing_metadata(self, *, status=None, **kw):
+        self.trailing = status
+
+    async def send_initial_metadata(self, **kw):
+        pass
+
+
+class FixedCheck:
+    def __init__(self, v):
+        self.v = v
+
+    def __status__(self):
+        return self.v
+
+    async def __check__(self):
+        return self.v
+
+    async def __subscribe__(self):
+        return asyncio.Event()
+
+    async def __unsubscribe__(self, event):
+        pass
+
+
+class ProbeEvent(asyncio.Event):
+    def __init__(self, ident, log, stepper):
+        super().__init__()
+        self.ident, self.log, self.stepper = ident, log, stepper
+
+    def clear(self):
+        self.log.append(('clear', self.ident, self.stepper.n))
+        super().clear()
+
+    def wait(self):
+        self.log.append(('wait', self.ident, self.stepper.n))
+        return super().wait()
+
+
+class ProbeCheck:
+    """a proactive check (like ServiceStatus) that records how the Watch loop uses it"""
+
+    def __init__(self, ident, v, log, stepper):
+        self.ident, self.v, self.log, self.stepper = ident, v, log, stepper
+        self.events = []
+
+    def __status__(self):
+        self.log.append(('status', self.ident, self.stepper.n))
+        return self.v
+
+    async def __check__(self):
+        return self.v
+
+    async def __subscribe__(self):
+        e = ProbeEvent(self.ident, self.log, self.stepper)
+        self.events.append(e)
+        return e
+
+    async def __unsubscribe__(self, event):
+        self.events.remove(event)
+
+    def change(self, v):
+        if v != self.v:
+            self.v = v
+            for e in self.events:
+                e.set()
+
+
+# ------------------------------------------------------------------------------------------------
+# 1. the aggregate, Check / Watch answers for unregistered and empty services
+
+def run_check(rig, health, name):
+    with rig.vloop.session() as loop:
+        st = Stepper(loop)
+        fs = Stream(rig.pb2, name)
+        t = loop.create_task(health.Check(fs))
+        st.settle()
+        need(t.done() and t.exception() is None, 'Health.Check did not finish cleanly')
+        return fs
+
+
+def run_watch_first(rig, health, name):
+    with rig.vloop.session() as loop:
+        st = Stepper(loop)
+        fs = Stream(rig.pb2, name)
+        t = loop.create_task(health.Watch(fs))
+        st.settle()
+        need(not t.done(), 'Health.Watch ended by itself')
+        first = list(fs.sent)
+        st.until(loop.time() + 20000.0)
+        need(not t.done() and fs.sent == first, 'Health.Watch sent something although nothing changed')
+        return first
+
+
+def aggregate_facts(rig):
+    table = {}
+    for n in (1, 2, 3):
+        for vals in itertools.product([True, False, None], repeat=n):
+            health = rig.health([('pkg.S', [FixedCheck(v) for v in vals])])
+            fs = run_check(rig, health, 'pkg.S')
+            need(len(fs.sent) == 1 and fs.trailing is None, 'Check answers with exactly one message')
+            sig = (True in vals, False in vals, None in vals)
+            need(table.setdefault(sig, fs.sent[0]) == fs.sent[0],
+                 'the aggregate is not a function of the SET of statuses: %r' % (vals,))
+            first = run_watch_first(rig, health, 'pkg.S')
+            need(first == [fs.sent[0]], 'first Watch message %r differs from the Check answer %r for %r'
+                 % (first, fs.sent, vals))
+            # OVERALL defaults to the union of all lists
+            fo = run_check(rig, health, '')
+            need(fo.sent == fs.sent, 'OVERALL does not aggregate all checks')
+    need(len(table) == 7, 'seven non-empty status sets')
+    health = rig.health([('pkg.S', [FixedCheck(True)]), ('pkg.E', [])])
+    unreg = run_check(rig, health, 'pkg.nope')
+    need(unreg.sent == [] and unreg.trailing is not None, 'Check on an unregistered service sends trailers only')
+    empty = run_check(rig, health, 'pkg.E')
+    need(len(empty.sent) == 1 and empty.trailing is None, 'Check on a service without checks')
+    w_unreg = run_watch_first(rig, health, 'pkg.nope')
+    w_empty = run_watch_first(rig, health, 'pkg.E')
+    need(len(w_unreg) == 1 and len(w_empty) == 1, 'Watch sends one message for unregistered / empty services')
+    none_cfg = rig.service.Health()
+    need(run_check(rig, none_cfg, '').sent == empty.sent, 'Health() has OVERALL with no checks')
+    return table, int(unreg.trailing.value), empty.sent[0], w_unreg[0], w_empty[0]
+
+
+# ------------------------------------------------------------------------------------------------
+# 2. one wake-up of the Watch loop
+
+def watch_scene(rig, vals):
+    loop_cm = rig.vloop.session()
+    loop = loop_cm.__enter__()
+    st = Stepper(loop)
+    log = []
+    checks = [ProbeCheck(i, v, log, st) for i, v in enumerate(vals)]
+    fs = Stream(rig.pb2, 'pkg.S', st, log)
+    health = rig.health([('pkg.S', checks)])
+    task = loop.create_task(health.Watch(fs))
+    st.settle()
+    need(not task.done() and len(fs.sent) == 1, 'Watch: first message')
+    return loop_cm, loop, st, log, checks, fs, task
+
+
+def segment(log, n):
+    return [e for e in log if e[2] == n]
+
+
+def watch_facts(rig):
+    # (a) subscription segment: every event cleared / waited, status read, message -- all in one iteration
+    cm, loop, st, log, checks, fs, task = watch_scene(rig, [None, None])
+    try:
+        n0 = [e for e in log if e[0] == 'send'][0][2]
+        seg = segment(log, n0)
+        absent_renewed = all(('wait', i, n0) in seg for i in (0, 1))
+        atomic0 = {e[0] for e in seg} >= {'wait', 'status', 'send'} and len(segment(log, n0)) == len(log) \
+            and seg[-1][0] == 'send'            # nothing is renewed or read after send_message was entered
+        # (b) one of two checks changes: FIRST_COMPLETED wakes the watcher
+        del log[:]
+        checks[0].change(True)
+        for k in range(1, 12):
+            st.step()
+            if len(fs.sent) == 2:
+                break
+        first_completed = len(fs.sent) == 2
+        if not first_completed:
+            checks[1].change(True)
+            st.settle()
+            need(len(fs.sent) == 2, 'Watch does not report a change of every check')
+            return dict(first_completed=False, absent_or_done=False, clears_then_waits=False, atomic=False)
+        hops = k
+        n1 = [e for e in log if e[0] == 'send'][0][2]
+        seg = [e for e in segment(log, n1)]
+        kinds0 = [e[0] for e in seg if e[1] == 0]
+        kinds1 = [e[0] for e in seg if e[1] == 1 and e[0] != 'status']
+        done_renewed = 'wait' in kinds0
+        pending_kept = kinds1 == []
+        clears_then_waits = 'clear' in kinds0 and 'wait' in kinds0 and kinds0.index('clear') < kinds0.index('wait')
+        reads = [e for e in seg if e[0] == 'status']
+        atomic1 = len(reads) >= 2 and seg[-1][0] == 'send' and \
+            all(e[2] == n1 for e in log if e[0] in ('clear', 'wait', 'status', 'send'))
+        st.settle()
+        need(len(fs.sent) == 2 and not checks[0].events[0].is_set(), 'Watch: the renewed event is clear and quiet')
+    finally:
+        cm.__exit__(None, None, None)
+    # (c) the other check changes just before the Watch task runs: its wait task is woken, not done -> kept,
+    #     its event stays set, and a further message follows
+    cm, loop, st, log, checks, fs, task = watch_scene(rig, [None, None])
+    try:
+        checks[0].change(True)
+        st.step(hops - 1)
+        need(len(fs.sent) == 1, 'Watch: wake-up takes the same number of iterations every time')
+        del log[:]
+        checks[1].change(False)
+        st.step()
+        need(len(fs.sent) == 2, 'Watch: wake-up takes the same number of iterations every time')
+        n2 = st.n
+        seg1 = [e[0] for e in segment(log, n2) if e[1] == 1 and e[0] != 'status']
+        woken_kept = seg1 == [] and checks[1].events[0].is_set()
+        st.settle()
+        woken_followed = len(fs.sent) == 3
+    finally:
+        cm.__exit__(None, None, None)
+    return dict(first_completed=True,
+                absent_or_done=absent_renewed and done_renewed and pending_kept and woken_kept and woken_followed,
+                clears_then_waits=clears_then_waits, atomic=atomic0 and atomic1)
+
+
+# ------------------------------------------------------------------------------------------------
+# 3. ServiceStatus.set / ServiceCheck.__check__
+
+def status_notify(rig):
+    with rig.vloop.session() as loop:
+        st = Stepper(loop)
+        out = {}
+
+        async def go():
+            ok = True
+            for old, new in itertools.product([True, False, None], repeat=2):
+                s = rig.check.ServiceStatus()
+                s.set(old)
+                ev = await s.__subscribe__()
+                need(not ev.is_set() or True, '')
+                ev.clear()
+                s.set(new)
+                ok = ok and (ev.is_set() == (old != new)) and s.__status__() == new
+                other = await s.__subscribe__()
+                await s.__unsubscribe__(ev)
+                ev.clear()
+                s.set(not new if new is not None else True)
+                ok = ok and not ev.is_set() and other.is_set()
+            out['ok'] = ok
+        t = loop.create_task(go())
+        st.settle()
+        need(t.done() and t.exception() is None, 'ServiceStatus probe')
+        return out['ok']
+
+
+class Fn:
+    """scripted check function: [(duration in ticks or -1 for no suspension, result)], result in T F N B R"""
+
+    def __init__(self, loop, script):
+        self.loop, self.script, self.n = loop, script, 0
+        self.log = []
+        self.active = self.max_active = 0
+
+    async def __call__(self):
+        d, r = self.script[min(self.n, len(self.script) - 1)]
+        self.n += 1
+        rec = [self.loop.time() / TICK, None]
+        self.log.append(rec)
+        self.active += 1
+        self.max_active = max(self.max_active, self.active)
+        try:
+            if d >= 0:
+                await asyncio.sleep(d * TICK)
+            if r == 'R':
+                raise RuntimeError('scripted failure')
+            return {'T': True, 'F': False, 'N': None, 'B': 1}[r]
+        finally:
+            self.active -= 1
+            rec[1] = self.loop.time() / TICK
+
+
+def sc_scene(rig, script, ttl, tmo, events, horizon):
+    """events: [(t, 'call') | (t, 'cancel', k)]; returns per caller (state, value, time), function log, status"""
+    import logging
+    logging.getLogger(rig.check.__name__).setLevel(logging.CRITICAL)
+    with rig.vloop.session() as loop:
+        st = Stepper(loop)
+        fn = Fn(loop, script)
+        c = rig.check.ServiceCheck(fn, check_ttl=ttl * TICK, check_timeout=tmo * TICK)
+        callers, ends = [], {}
+        for ev in events:
+            st.until(ev[0] * TICK)
+            if ev[1] == 'call':
+                t = loop.create_task(c.__check__())
+                t.add_done_callback(lambda _, i=len(callers): ends.setdefault(i, loop.time() / TICK))
+                callers.append(t)
+            else:
+                callers[ev[2]].cancel()
+        st.until(horizon * TICK)
+        res = []
+        for i, t in enumerate(callers):
+            if not t.done():
+                res.append(('pending', None, None))
+            elif t.cancelled():
+                res.append(('cancelled', None, ends[i]))
+            elif t.exception() is not None:
+                res.append(('exc', type(t.exception()).__name__, ends[i]))
+            else:
+                res.append(('ret', t.result(), ends[i]))
+        out = (res, [tuple(r) + (fn.max_active,) for r in fn.log], c.__status__())
+        for t in callers:
+            t.cancel()
+        return out
+
+
+def check_facts(rig):
+    T, TMO = 8, 16
+    # TTL cache: a second call at elapsed = ttl-1, ttl, ttl+1 after a run that ended at t=0
+    cached = []
+    for el in (T - 1, T, T + 1):
+        res, log, _ = sc_scene(rig, [(-1, 'T')], T, TMO, [(0, 'call'), (el, 'call')], el + 4)
+        need(all(r[0] == 'ret' and r[1] is True for r in res), 'TTL probe: both calls return True')
+        cached.append(len(log) == 1)
+    cmp_code = {(True, False, False): 0, (True, True, False): 1, (False, False, True): 2,
+                (False, True, True): 3}.get(tuple(cached))
+    need(cmp_code is not None, 'TTL test is not a comparison of elapsed time with check_ttl: %r' % (cached,))
+    # single flight: a caller arriving during a run does not start the function and gets the run's result
+    res, log, _ = sc_scene(rig, [(4, 'T')], T, TMO, [(0, 'call'), (1, 'call')], 20)
+    latch_cleared = len(log) == 1
+    if latch_cleared:
+        need(res[1] == ('ret', True, 4.0), 'a waiter returns the result when the run ends: %r' % (res,))
+    # how a run ends releases the waiters: return / raise / timeout / the runner is cancelled
+    released = True
+    for script, extra in (([(4, 'T')], []), ([(4, 'R')], []), ([(10 * TMO, 'T')], []), ([(4, 'T')], [(2, 'cancel', 0)])):
+        res, log, _ = sc_scene(rig, script + [(-1, 'T')], T, TMO, [(0, 'call'), (1, 'call')] + extra, 12 * TMO)
+        released = released and res[1][0] == 'ret'
+        # ... and the latch is usable again afterwards
+        res2, log2, _ = sc_scene(rig, script + [(-1, 'T')], T, TMO,
+                                 [(0, 'call')] + extra + [(11 * TMO, 'call')], 12 * TMO)
+        released = released and res2[-1][0] == 'ret' and len(log2) == 2
+    # every run that produced a status (also a failing one) opens a TTL window: no second run inside it
+    for script in ([(1, 'T')], [(1, 'R')], [(1, 'B')], [(10 * TMO, 'T')]):
+        res, log, _ = sc_scene(rig, script + [(-1, 'T')], 4 * TMO, TMO, [(0, 'call'), (TMO + 2, 'call')], 3 * TMO)
+        need(len(log) == 1 and res[1][0] == 'ret', 'a completed run (%r) is cached for check_ttl' % (script[0],))
+    # the first run is cancelled while two more callers wait: still never two runs at once
+    if latch_cleared:
+        res, log, _ = sc_scene(rig, [(4, 'T')], T, TMO, [(0, 'call'), (1, 'call'), (1, 'call'), (2, 'cancel', 0)], 40)
+        need(all(r[2] == 1 for r in log), 'single flight is kept when the running caller is cancelled')
+    # timeout
+    res, log, val = sc_scene(rig, [(10 * TMO, 'T')], T, TMO, [(0, 'call')], 12 * TMO)
+    guarded = res[0][0] == 'ret' and res[0][2] == float(TMO) and log[0][1] == float(TMO)
+    if guarded:
+        need(res[0][1] is False and val is False, 'a run past check_timeout counts as failing')
+    else:
+        need(res[0][0] == 'ret' and res[0][2] == float(10 * TMO), 'check_timeout: neither effective nor ignored')
+    # raise / non-bool
+    res, log, val = sc_scene(rig, [(1, 'R')], T, TMO, [(0, 'call')], 20)
+    need(res[0][0] == 'ret' and val in CODE and res[0][1] is val, 'a raising check function is absorbed')
+    fail_value = CODE[val]
+    res, log, val = sc_scene(rig, [(1, 'B')], T, TMO, [(0, 'call')], 20)
+    need(res[0][0] == 'ret', 'a non-bool result is absorbed')
+    typeguard = val is False or (val is None and fail_value == 2)
+    typeguard = res[0][1] is ST[fail_value] and val is ST[fail_value]
+    # check_timeout <= 0: failing at once, function not called (what the model does when the wrapper is in place)
+    res, log, val = sc_scene(rig, [(-1, 'T')], T, 0, [(0, 'call')], 20)
+    if guarded:
+        need(log == [] and res[0][:2] == ('ret', ST[fail_value]) and res[0][2] == 0.0,
+             'check_timeout = 0: failing at once without calling the function: %r %r' % (res, log))
+    # a later check can succeed again (no sticky state); cancellation of a waiter only ends that waiter
+    res, log, val = sc_scene(rig, [(10 * TMO, 'T'), (1, 'T')], T, TMO, [(0, 'call'), (3 * TMO, 'call')], 5 * TMO)
+    need(res[1][:2] == ('ret', True) or not guarded, 'a check after a timed-out one is judged on its own')
+    return dict(ttl_cmp=cmp_code, latch_cleared=latch_cleared, latch_set=released, guarded=guarded,
+                typeguard=typeguard, fail_value=fail_value)
+
+
+def poll_scene(rig, script, ttl, tmo, plan, horizon):
+    """plan: [('join',) | ('leave', k) | ('iter', n) | ('time', dt) | ('mark',)].  A watcher is what Health.Watch
+    is to a check: subscribe, wait, unsubscribe in `finally`.  Returns watcher outcomes, events seen, function log."""
+    import logging
+    logging.getLogger(rig.check.__name__).setLevel(logging.CRITICAL)
+    with rig.vloop.session() as loop:
+        st = Stepper(loop)
+        fn = Fn(loop, script)
+        c = rig.check.ServiceCheck(fn, check_ttl=ttl * TICK, check_timeout=tmo * TICK)
+        ws, evs, marks = [], [], []
+
+        async def watcher(i):
+            ev = await c.__subscribe__()
+            evs[i] = ev
+            try:
+                await loop.create_future()
+            finally:
+                await c.__unsubscribe__(ev)
+        for p in plan:
+            if p[0] == 'join':
+                evs.append(None)
+                ws.append(loop.create_task(watcher(len(ws))))
+            elif p[0] == 'leave':
+                ws[p[1]].cancel()
+            elif p[0] == 'iter':
+                st.step(p[1])
+            elif p[0] == 'time':
+                st.until(loop.time() + p[1] * TICK)
+            elif p[0] == 'mark':
+                marks.append([(e.is_set() if e is not None else None) for e in evs])
+                for e in evs:
+                    if e is not None:
+                        e.clear()
+        st.until(loop.time() + horizon * TICK)
+        now = loop.time() / TICK
+        for w in ws:
+            w.cancel()
+        st.until(loop.time() + 4 * (ttl + tmo) * TICK)
+        outs = []
+        for w in ws:
+            if not w.done():
+                outs.append('pending')
+            elif w.cancelled():
+                outs.append('cancelled')
+            else:
+                outs.append('exc:' + type(w.exception()).__name__ if w.exception() else 'ended')
+        late = [r for r in fn.log if r[0] > now]
+        return outs, marks, [tuple(r) for r in fn.log], now, late
+
+
+def poll_facts(rig):
+    T, TMO = 8, 16
+    # a subscriber makes the check poll: the function runs about every ttl; a second subscriber adds no poller
+    outs, marks, log, now, late = poll_scene(rig, [(-1, 'T')], T, TMO, [('join',), ('time', 10 * T)], 0)
+    starts = 9 <= len(log) <= 12
+    outs2, _, log2, _, late2 = poll_scene(rig, [(-1, 'T')], T, TMO, [('join',), ('iter', 3), ('join',), ('time', 10 * T)], 0)
+    starts = starts and len(log2) == len(log) and outs == ['cancelled'] and outs2 == ['cancelled'] * 2 \
+        and not late and not late2
+    need(starts or len(log) <= 1, 'polling: neither once per ttl nor absent: %d runs' % len(log))
+    # notification: the subscriber's event is set exactly when the polled value changes
+    outs, marks, log, now, late = poll_scene(
+        rig, [(-1, 'T'), (-1, 'T'), (-1, 'F'), (-1, 'F'), (-1, 'N'), (-1, 'R'), (-1, 'B'), (-1, 'T')], T, TMO,
+        [('join',), ('iter', 4), ('mark',)] + [('time', T), ('mark',)] * 7, 0)
+    flat = [m[0] for m in marks]
+    notifies = flat == [True, False, True, False, True, True, False, True]
+    need(notifies or not any(flat[1:]) or all(flat), 'change notification pattern %r' % (flat,))
+    # hand-over: the last watcher leaves, the next one joins k iterations later -- it must be polled for and
+    # its own leave must be clean
+    handover = True
+    for k in (0, 1, 2, 3):
+        outs, marks, log, now, late = poll_scene(
+            rig, [(-1, 'T')], T, TMO,
+            [('join',), ('time', 2 * T + 1), ('leave', 0), ('iter', k), ('join',), ('time', 10 * T)], 0)
+        recent = [r for r in log if r[0] >= now - 2 * T]
+        handover = handover and outs == ['cancelled', 'cancelled'] and bool(recent) and not late
+    # the same while a run of the function is in flight
+    for k in (0, 1, 2):
+        outs, marks, log, now, late = poll_scene(
+            rig, [(3, 'T')], T, TMO,
+            [('join',), ('time', 1), ('leave', 0), ('iter', k), ('join',), ('time', 10 * T)], 0)
+        recent = [r for r in log if r[0] >= now - 2 * T - 3]
+        handover = handover and outs == ['cancelled', 'cancelled'] and bool(recent) and not late
+    return starts, notifies, handover
+
+
+# ------------------------------------------------------------------------------------------------
+
 def generate(repo):
-    enum_list = proto_enum(repo)
-    enum = dict(enum_list)
-    svc = parse(repo, 'grpclib/health/service.py')
-    chk = parse(repo, 'grpclib/health/check.py')
-    const = parse(repo, 'grpclib/const.py')
-    status_enum = [(k, ceval(v, {})) for k, v in enum_members(const, 'Status')]
-    chain, default = status_chain(func_node(svc, '_status'), enum)
-    unreg_code, check_empty = check_facts(svc, enum, status_enum)
-    w_unreg, w_empty, first = watch_facts(svc, enum)
-    absent_or_done, clears = reset_facts(svc)
-    env = {}
-    assigns = module_assigns(chk)
-    ttl = ceval(assigns['DEFAULT_CHECK_TTL'], env)
-    tmo = ceval(assigns['DEFAULT_CHECK_TIMEOUT'], env)
-    need(isinstance(ttl, int) and isinstance(tmo, int), 'integer defaults')
-    init = func_node(chk, '__init__', 'ServiceCheck')
-    kwd = {a.arg: u(d) for a, d in zip(init.args.kwonlyargs, init.args.kw_defaults) if d is not None}
-    need(kwd.get('check_ttl') == 'DEFAULT_CHECK_TTL' and kwd.get('check_timeout') == 'DEFAULT_CHECK_TIMEOUT',
-         'ServiceCheck.__init__ defaults')
-    need(any(u(s) == 'self._check_lock.set()' for s in init.body), 'latch initially set')
-    cls = class_node(chk, 'ServiceCheck')
-    cattr = {u(s.targets[0]): u(s.value) for s in cls.body if isinstance(s, ast.Assign)}
-    need(cattr.get('_value') == 'None' and cattr.get('_last_check') == 'None', 'initial _value/_last_check')
-    sc = service_check_facts(chk)
-    set_notify = service_status_facts(chk)
-    starts_when_none, cleared_before_await = poll_facts(chk)
+    rig = Rig(repo)
+    enum = [(k, int(v)) for k, v in rig.pb2.HealthCheckResponse.ServingStatus.items()]
+    table, unreg_code, check_empty, w_unreg, w_empty = aggregate_facts(rig)
+    w = watch_facts(rig)
+    set_notify = status_notify(rig)
+    sc = check_facts(rig)
+    starts, check_notify, handover = poll_facts(rig)
     out = []
-    out.append('(* GENERATED by tools/facts_C19.py from grpclib/health/{service,check}.py, health.proto -- do not edit *)')
+    out.append('(* GENERATED by tools/facts_C19.py by probing grpclib.health of the repository under test -- do not edit *)')
     out.append('From Coq Require Import ZArith List Bool.')
     out.append('Import ListNotations.')
     out.append('Open Scope Z_scope.')
     out.append('(* status codes: True = 1, False = 0, None = 2 *)')
     out.append('Definition serving_status_enum : list (list Z * Z) := [%s].' %
-               '; '.join('(%s, %d)' % (zs(k), v) for k, v in enum_list))
-    out.append('Definition status_chain : list (list Z * Z) := [%s].' %
-               '; '.join('([%s], %d)' % ('; '.join(map(str, e)), r) for e, r in chain))
-    out.append('Definition status_else : Z := %d.' % default)
+               '; '.join('(%s, %d)' % (zs(k), v) for k, v in enum))
+    out.append('(* Health.Check / first Watch message for a service whose checks have exactly this non-empty SET of '
+               'statuses: (has True, has False, has None) *)')
+    out.append('Definition status_table : list ((bool * bool * bool) * Z) := [%s].' % '; '.join(
+        '((%s, %s, %s), %d)' % (b(s[0]), b(s[1]), b(s[2]), r) for s, r in sorted(table.items(), reverse=True)))
     out.append('Definition check_unregistered_grpc_status : Z := %d.' % unreg_code)
     out.append('Definition check_empty_resp : Z := %d.' % check_empty)
     out.append('Definition watch_unregistered_resp : Z := %d.' % w_unreg)
     out.append('Definition watch_empty_resp : Z := %d.' % w_empty)
-    out.append('Definition watch_first_completed : bool := %s.' % b(first))
-    out.append('Definition reset_when_absent_or_done : bool := %s.' % b(absent_or_done))
-    out.append('Definition reset_clears_then_waits : bool := %s.' % b(clears))
-    out.append('Definition default_check_ttl : Z := %d.' % ttl)
-    out.append('Definition default_check_timeout : Z := %d.' % tmo)
-    out.append('Definition ttl_cmp : Z := %d.   (* elapsed <op> ttl returns the cached value: 0 "<", 1 "<=", 2 ">", 3 ">=" *)'
-               % sc['ttl_cmp'])
-    out.append('Definition latch_cleared_before_run : bool := %s.' % b(sc['latch_cleared']))
-    out.append('Definition latch_set_in_finally : bool := %s.' % b(sc['latch_set_finally']))
-    out.append('Definition func_guarded : bool := %s.   (* await self._func() inside a fresh started DeadlineWrapper *)'
+    out.append('(* one wake-up of the Watch loop *)')
+    out.append('Definition watch_first_completed : bool := %s.   (* one changed check is enough to wake the watcher *)'
+               % b(w['first_completed']))
+    out.append('Definition reset_when_absent_or_done : bool := %s.   (* wait task absent / done: renewed; pending / woken: kept *)'
+               % b(w['absent_or_done']))
+    out.append('Definition reset_clears_then_waits : bool := %s.   (* a renewed event is cleared before its new wait *)'
+               % b(w['clears_then_waits']))
+    out.append('Definition watch_segment_atomic : bool := %s.   (* renew, read every status, call send_message: one loop iteration *)'
+               % b(w['atomic']))
+    out.append('(* ServiceCheck.__check__ *)')
+    out.append('Definition ttl_cmp : Z := %d.   (* cached iff elapsed <op> ttl: 0 "<", 1 "<=", 2 ">", 3 ">=" *)' % sc['ttl_cmp'])
+    out.append('Definition latch_cleared_before_run : bool := %s.   (* a caller arriving during a run does not start the function *)'
+               % b(sc['latch_cleared']))
+    out.append('Definition latch_set_in_finally : bool := %s.   (* return / raise / timeout / cancel all release the waiters *)'
+               % b(sc['latch_set']))
+    out.append('Definition func_guarded : bool := %s.   (* a run past check_timeout is interrupted at the deadline *)'
                % b(sc['guarded']))
     out.append('Definition nonbool_is_type_error : bool := %s.' % b(sc['typeguard']))
     out.append('Definition check_failure_value : Z := %d.' % sc['fail_value'])
-    out.append('Definition check_notifies_on_change : bool := %s.' % b(sc['notify']))
+    out.append('Definition check_notifies_on_change : bool := %s.' % b(check_notify))
     out.append('Definition set_notifies_on_change : bool := %s.' % b(set_notify))
-    out.append('Definition subscribe_starts_poll_when_none : bool := %s.' % b(starts_when_none))
-    out.append('Definition poll_cleared_before_await : bool := %s.   (* __unsubscribe__ forgets the poll task before it '
-               'suspends in `await task` *)' % b(cleared_before_await))
+    out.append('Definition subscribe_starts_poll_when_none : bool := %s.   (* first subscriber starts one poller, more add none *)'
+               % b(starts))
+    out.append('Definition poll_cleared_before_await : bool := %s.   (* last watcher leaves, next joins 0..3 iterations later: '
+               'still polled, clean leave *)' % b(handover))
     return '\n'.join(out) + '\n'
 
 
 if __name__ == '__main__':
-    import sys
     sys.stdout.write(generate(os.environ.get('VERIF_REPO', '/repo')))
